@@ -45,8 +45,6 @@ import (
 
 	"golang.org/x/net/http2"
 	"golang.org/x/net/http2/hpack"
-
-	"verifharness/shot"
 )
 
 // h2rawTarget: one listener per engine run, closed (with every connection it accepted) when the run is over: the
@@ -163,7 +161,7 @@ func h2rawServe(tc *tls.Conn, raw net.Conn) {
 
 // answer writes the scripted reaction to the request on stream id; false = the connection is finished.
 func (h *h2rawConn) answer(id uint32, script string, raw net.Conn) bool {
-	sc, err := shot.ParseScript(script)
+	sc, err := c19ParseScript(script)
 	if err != nil {
 		_ = h.fr.WriteHeaders(http2.HeadersFrameParam{StreamID: id, BlockFragment: h.block([2]string{":status", "500"}), EndHeaders: true, EndStream: true})
 		return true
@@ -355,7 +353,7 @@ func (h *h2rawConn) answer(id uint32, script string, raw net.Conn) bool {
 
 // h2Truth: ground truth of a script for an HTTP/2 client of the h2raw target (vocabulary of truthOf).
 func h2Truth(script string) string {
-	sc, err := shot.ParseScript(script)
+	sc, err := c19ParseScript(script)
 	if err != nil {
 		panic(err)
 	}
